@@ -235,7 +235,9 @@ VERIF_TARGET(c58_unrequested, nullptr, 16, 120,
             if (on_side) continue;
             for (int i = 0; i <= need; ++i) if (!has_data.count(i)) requested(i, "prefix");
             st.steps++;
-            VCHECK(sim.TipHash() == side[need]->GetHash(), "c58.redelivery-not-tip", "side chain with all data and more work did not become tip; side h", side_h(need), "tip h", sim.TipHeight());
+            int top = need; // blocks stored earlier (unrequested) right above the prefix are linked as well
+            while (top + 1 < NSIDE && has_data.count(top + 1)) ++top;
+            VCHECK(sim.TipHash() == side[top]->GetHash(), "c58.redelivery-not-tip", "side chain with all data and more work did not become tip; side h", side_h(top), "tip h", sim.TipHeight());
             redelivered++;
             st.mix(uint64_t(902)); st.cls("side-became-tip");
             st.note("side prefix up to h=", side_h(need), " requested -> tip");
